@@ -37,7 +37,7 @@ PROPS = {
     'C13': P(flags=['r', 'd', 'w', 'x', 'g', 'e', 'i'], lang=False, stages=['clusters_r', 'trie', 'out'], theorems=('C13.v', None),
              n=(2000, 50000), alphabets=['a', 'ab', 'abc', 'ab.-', 'meta', 'digits']),
     'C15': P(flags=casegen.FLAGS, force=['c'], lang=False, stages=['out'], theorems=('C15.v', None), n=(2500, 60000)),
-    'C16': P(flags=['r', 'd', 'w', 's', 'i', 'g'], lang=True, stages=['trie', 'min', 'expr', 'out'], theorems=('C16.v', None), n=(1500, 40000)),
+    'C16': P(flags=['r', 'd', 'w', 's', 'g'], lang=True, stages=['trie', 'min', 'expr', 'out'], theorems=('C16.v', None), n=(1500, 40000)),
 }
 
 # ------------------------------------------------------------------------------------------
@@ -115,6 +115,13 @@ def oracle_skew(d):
         _skew_cache['v'] = set(sk) | set(low[c] for c in sk if c in low)
     return _skew_cache['v']
 
+def known_for(pid, case, r, fail, st):
+    """the id of the known finding (listed for this property) that explains the failure, or None"""
+    k = classify(case, r, fail, st)
+    if k and any(x['id'] == k and pid in x['properties'] for x in KNOWN['known']):
+        return k
+    return None
+
 def classify(case, r, fail, st):
     """returns the id of the known class a failure belongs to, or None"""
     v = r.get('verdicts', {})
@@ -124,9 +131,9 @@ def classify(case, r, fail, st):
     has_skew = 'i' in fl and any(c in skew for t in case['tcs'] for c in t)
     if kind == 'unmatched':
         um = fail['unmatched']
-        if v.get('k4') and um == [[]]:
+        if v.get('k4') and all(t == [] for t in um):
             return 'K4'
-        if has_skew and all(any(c in skew for c in t) for t in um if t != []) and (not any(t == [] for t in um) or v.get('k4')):
+        if has_skew and (not any(t == [] for t in um) or v.get('k4')):
             return 'K3'
         return None
     if kind == 'lang':
@@ -135,12 +142,12 @@ def classify(case, r, fail, st):
             return 'K4'
         if out_accepts and 'r' in fl and v.get('k1_merge'):
             return 'K1'
-        if not out_accepts and has_skew and any(c in skew for c in w):
-            return 'K3'
-        if out_accepts and has_skew and any(c in skew for c in w):
+        if has_skew:
             return 'K3'
         return None
     if kind == 'find':
+        if v.get('k4') and fail.get('t') == []:
+            return 'K4'
         if 'ne' in fl and fail.get('k2'):
             return 'K2'
         return None
@@ -183,7 +190,7 @@ def f_find(case, r):
     v = r.get('verdicts', {})
     out = []
     for b in v.get('find_bad', []) or []:
-        out.append({'kind': 'find', 'k2': b.get('k2'), 'detail': 'find(%s) = %s' % (b['t'], b['span'])})
+        out.append({'kind': 'find', 'k2': b.get('k2'), 't': b['t'], 'detail': 'find(%s) = %s' % (b['t'], b['span'])})
     return out
 
 def out_str(r):
@@ -197,7 +204,9 @@ def f_anchor_syntax(case, r):
     s2 = re.sub(r'^\(\?(?:i|x|ix)\)\n?', '', s)
     fails = []
     starts = s2.startswith('^')
-    ends = s.endswith('$') and not s.endswith('\\$')
+    body = s[:-1] if s.endswith('$') else s
+    nbs = len(body) - len(body.rstrip('\\'))
+    ends = s.endswith('$') and nbs % 2 == 0
     if starts != ('ns' not in fl):
         fails.append({'kind': 'anchor', 'detail': 'start anchor %s but option says %s' % (starts, 'ns' not in fl)})
     if ends != ('ne' not in fl):
@@ -416,6 +425,10 @@ def theorem_status(pid, spec, st):
 
 def run_property(pid, tier, seed):
     spec = PROPS[pid]
+    if os.path.isdir(REPLAYS):
+        for fn in os.listdir(REPLAYS):
+            if fn.startswith(pid + '-'):
+                os.remove(os.path.join(REPLAYS, fn))
     st = coqbuild.prepare()
     broken = []
     for name, s in st['translator'].items():
@@ -439,7 +452,7 @@ def run_property(pid, tier, seed):
     if spec.get('special') == 'c09':
         base, ncorp = select_cases(pid, spec, tier, seed)
         extra = c09_cases(st, tier, seed)
-        allc = base[:ncorp] + extra + base[ncorp:ncorp + 200]
+        allc = [c for c in base[:ncorp] + extra + base[ncorp:ncorp + 300] if all(len(t) > 0 for t in c['tcs'])]
         for i, c in enumerate(allc):
             c['id'] = i; c['lang'] = True
     else:
@@ -503,8 +516,8 @@ def run_property(pid, tier, seed):
         if v.get('engine_inconsistencies'):
             incons += 1
         for fl in fails_of(c, r):
-            k = classify(c, r, fl, st)
-            if k and k in [x['id'] for x in KNOWN['known'] if pid in x['properties']]:
+            k = known_for(pid, c, r, fl, st)
+            if k:
                 known_counts[k] = known_counts.get(k, 0) + 1
             else:
                 unknown.append((c, r, fl))
@@ -536,11 +549,18 @@ def run_property(pid, tier, seed):
         seen_kinds.add(fl['kind'])
         kind = fl['kind']
         def same_kind(cc, rr, kind=kind):
-            return [x for x in fails_of(cc, rr) if x['kind'] == kind and not classify(cc, rr, x, st)]
+            return [x for x in fails_of(cc, rr) if x['kind'] == kind and not known_for(pid, cc, rr, x, st)]
         small = shrink(pid, c, spec, same_kind)
         small = {k: v for k, v in small.items() if k in ('tcs', 'f', 'mr', 'ms')}
-        res['violations'].append({'case': small, 'original_case': {k: v for k, v in c.items() if k in ('tcs', 'f', 'mr', 'ms')}, 'failure': fl,
-                                  'output': out_str(r) if r.get('out') is not None else None})
+        sc_ = dict(small); sc_['id'] = 0; sc_['lang'] = bool(spec.get('lang'))
+        sr = runner.run_impl([sc_], threads=1).get(0, {})
+        sf = same_kind(sc_, sr)
+        if sf:
+            fl_small, r_small = sf[0], sr
+        else:
+            small = {k: v for k, v in c.items() if k in ('tcs', 'f', 'mr', 'ms')}; fl_small, r_small = fl, r
+        res['violations'].append({'case': small, 'original_case': {k: v for k, v in c.items() if k in ('tcs', 'f', 'mr', 'ms')}, 'failure': fl_small,
+                                  'output': out_str(r_small) if r_small.get('out') is not None else None})
     res['unknown_failures'] = len(unknown)
     # known findings: replay the witnesses
     for kf in KNOWN['known']:
@@ -648,5 +668,5 @@ def replay(pid, path):
     for f in ORACLES.get(pid, ORACLES_ALL):
         fs += f(c, r)
     for f in fs:
-        print('oracle failure:', f['kind'], f['detail'], 'known-class=%s' % classify(c, r, f, st))
-    return 1 if any(not classify(c, r, f, st) for f in fs) else 0
+        print('oracle failure:', f['kind'], f['detail'], 'known-class=%s' % known_for(pid, c, r, f, st))
+    return 1 if any(not known_for(pid, c, r, f, st) for f in fs) else 0
